@@ -7,13 +7,17 @@ From Coq Require Import List Bool Arith NArith ZArith Lia.
 From TV Require Import Model.Engine Model.EngineToy Model.EngineForest.
 Import ListNotations.
 
+(* memo consumes one unit of fuel per tree level; the harness's trees are far shallower than 64.  Running out of fuel (or an
+   algorithm addressing a child that does not exist) is NOT folded into "the pass changed nothing": the pass returns None and
+   the forest layer logs the marker -99, which no implementation result contains -- so exhaustion shows up as a broken
+   correspondence instead of a plausible list of dirty flags. *)
 Definition fuel_of (t : ttree) : nat := 64.
 
 (* set_style replaces (id, none); set_node_context leaves the toy style alone (the toy algorithm ignores measure data) *)
 Definition toy_layout (t : ttree) (tag : N) : option (ttree * list Z) :=
   match t_memo (fuel_of t) t (PerformLayout, tag) with
   | Some (_, t') => Some (t', [])
-  | None => Some (t, [])
+  | None => None
   end.
 
 Definition toy_new_style (id : N) (none : bool) : TS := (id, none).
